@@ -19,10 +19,11 @@ ASSUMPTIONS = ['inside the documented strictness band |x_i - f| <= 4*tolerance(f
 CLASSES = {
     'single': {'quick': 5000, 'thorough': 240000},
     'multi': {'quick': 1500, 'thorough': 60000},
+    'interleaved': {'quick': 800, 'thorough': 30000},
     'bounds': {'quick': 700, 'thorough': 30000},
     'named_collision': {'quick': 60, 'thorough': 1200},
 }
-MIN_EVENTS = {'quick': {'assert:rel': 5000, 'assert:frame': 5000, 'assert:bounds': 900}}
+MIN_EVENTS = {'quick': {'assert:rel': 5000, 'assert:frame': 5000, 'assert:bounds': 900, 'interleaved_functions_judged': 1500, 'with_user_locals': 800}}
 CASE_TIMEOUT = 120
 CMPS = ['=', '==', '<=', '>=', '<', '>', '!=']
 
@@ -63,37 +64,58 @@ def gen_x(rng, n):
     return [rng.choice([0.0, 1.0, -1.0, 2.5, -3.75, 0.1]) * mag * rng.choice([1.0, 1.0, 0.5, 3.0]) if rng.random() < 0.6 else rng.uniform(-5, 5) * mag for _ in range(n)]
 
 
-def compile_constraint(text, variables, n):
+def compile_constraint(text, variables, n, locals=None):
     from mystic.symbolic import generate_constraint, generate_solvers
-    return generate_constraint(generate_solvers(text, variables=variables, nvars=n))
+    if locals is None:
+        return generate_constraint(generate_solvers(text, variables=variables, nvars=n))
+    return generate_constraint(generate_solvers(text, variables=variables, nvars=n, locals=dict(locals)))
 
 
-def run_single(rng, obs):
+CONSTS = ['A', 'B', 'K1', 'CC']          # names of user constants passed through `locals` (no substring of a variable / function name of the zoo)
+TOLS = [(1e-6, 0.0), (1e-9, 1e-9), (0.5, 0.0), (1e-3, 1e-3), (1e-15, 1e-15)]
+
+
+def gen_single(rng, use_locals=False):
+    """one isolated-form relation + input vector; with use_locals the text refers to user constants and/or the strictness tolerance is user-chosen"""
     n = rng.choice([1, 2, 3, 4, 5, 8, 11, 15])
     variables, names = gen_names(rng, n)
     i = rng.randrange(n)
     cmp = rng.choice(CMPS)
-    rhs = gen_expr(rng, names, names[i], rng.randint(0, 3))
+    consts, tol, rel, locs = {}, 1e-15, 1e-15, None
+    if use_locals:
+        locs = {}
+        if rng.random() < 0.75:
+            for c in rng.sample(CONSTS, rng.randint(1, 2)): consts[c] = rng.choice([0.0, 1.0, -2.5, 0.5, 3.0, 40.0, -1e3])
+            locs.update(consts)
+        if rng.random() < 0.6 or not consts:
+            tol, rel = rng.choice(TOLS); locs.update({'tol': tol, 'rel': rel})
+    rhs = gen_expr(rng, names + list(consts), names[i], rng.randint(0, 3))
+    if consts and not any(c in rhs for c in consts):
+        rhs = '%s + %s' % (rhs, sorted(consts)[0])
     text = '%s %s %s' % (names[i], cmp, rhs)
     x = gen_x(rng, n)
+    env = T.env_of(names, x); env.update(consts)
     try:
-        f = T.value(rhs, T.env_of(names, x))
+        f = T.value(rhs, env)
     except (ZeroDivisionError, OverflowError, ValueError):
-        obs.skip('rhs undefined at x'); return
+        return None
     if not math.isfinite(f):
-        obs.skip('rhs not finite'); return
+        return None
     place = rng.random()
     if place < 0.25: x[i] = f                                  # exactly on the boundary
     elif place < 0.35: x[i] = float(np.nextafter(f, math.inf))
     elif place < 0.45: x[i] = float(np.nextafter(f, -math.inf))
     elif place < 0.7: x[i] = f + rng.choice([-1, 1]) * rng.choice([1e-3, 1.0, 50.0]) * max(1.0, abs(f))
-    obs.desc = {'text': text, 'variables': variables if isinstance(variables, str) else names, 'n': n, 'x': x}
-    c = compile_constraint(text, variables, n)
+    return {'text': text, 'variables': variables, 'names': names, 'n': n, 'i': i, 'cmp': cmp, 'rhs': rhs, 'x': x, 'f': f, 'locals': locs, 'tol': tol, 'rel': rel}
+
+
+def judge_single(obs, c, sp, tag=''):
+    text, n, i, cmp, x, f = sp['text'], sp['n'], sp['i'], sp['cmp'], sp['x'], sp['f']
     xin = list(x)
     y = c(list(x))
     y = [float(v) for v in y]
-    ck = lambda ok, what, **kw: obs.check(ok, what, text=text, x=x, y=y, f=f, **kw)
-    tolf = T.tolerance(f)
+    ck = lambda ok, what, **kw: obs.check(ok, what, text=text, x=x, y=y, f=f, locals=sp['locals'], **dict(kw, **({'context': tag} if tag else {})))
+    tolf = T.tolerance(f, sp['tol'], sp['rel'])
     band = abs(x[i] - f) <= 4 * tolf
     # (1) relation holds on the output
     yi = y[i]
@@ -103,7 +125,10 @@ def run_single(rng, obs):
     elif cmp == '<': ok = yi < f
     elif cmp == '>': ok = yi > f
     else: ok = yi != f
-    ck(ok, 'rel:the stated relation holds on the output (strictly for strict comparators)', cmp=cmp)
+    if not ok and cmp in ('<', '>', '!=') and yi == f and tolf < 2 * float(np.spacing(abs(f))):
+        obs.event('user_tolerance_below_float_resolution_not_judged')      # a user-chosen tol/rel smaller than the spacing of floats at f cannot separate the point
+    else:
+        ck(ok, 'rel:the stated relation holds on the output (strictly for strict comparators)', cmp=cmp)
     # (2) only the isolated variable changes
     changed = [j for j in range(n) if j != i and not (y[j] == xin[j])]
     ck(not changed, 'frame:the output differs from the input at most in the isolated variable', changed=changed)
@@ -116,8 +141,49 @@ def run_single(rng, obs):
     # (4) the move is minimal: the output lands on the boundary (+- tolerance), not somewhere else
     if not sat and cmp in ('<=', '>=', '<', '>'):
         ck(abs(yi - f) <= 8 * tolf + 1e-300, 'rel:a violating input is moved onto the boundary', cmp=cmp, distance=abs(yi - f))
-    obs.nontrivial = (not sat) or x[i] == f
+    return sat, band
+
+
+def run_single(rng, obs):
+    use_locals = rng.random() < 0.3
+    sp = gen_single(rng, use_locals)
+    if sp is None:
+        obs.skip('rhs undefined / not finite at x'); return
+    obs.desc = {'text': sp['text'], 'variables': sp['variables'] if isinstance(sp['variables'], str) else sp['names'], 'n': sp['n'], 'x': sp['x'], 'locals': sp['locals']}
+    c = compile_constraint(sp['text'], sp['variables'], sp['n'], sp['locals'])
+    sat, band = judge_single(obs, c, sp)
+    if use_locals: obs.event('with_user_locals')
+    obs.nontrivial = (not sat) or sp['x'][sp['i']] == sp['f']
     obs.notes = {'satisfied_before': sat, 'in_band': band}
+
+
+def run_interleaved(rng, obs):
+    """several constraint functions are generated first (different texts, the same constant names with different values, different
+    strictness tolerances, also plain ones), then all are used: a generated function must keep meaning ITS text with ITS locals"""
+    k = rng.randint(2, 5)
+    sps = []
+    for _ in range(k * 3):
+        sp = gen_single(rng, rng.random() < 0.7)
+        if sp is not None: sps.append(sp)
+        if len(sps) == k: break
+    if len(sps) < 2:
+        obs.skip('too few defined relations'); return
+    fns = [compile_constraint(sp['text'], sp['variables'], sp['n'], sp['locals']) for sp in sps]
+    extra = rng.random() < 0.5
+    if extra:      # unrelated builds in between (defaults, and the other generator of the same module)
+        from mystic.symbolic import generate_conditions
+        compile_constraint('x0 < 3.0', 'x', 1)
+        generate_conditions('x0 < A', nvars=1, locals={'A': 123.0, 'tol': 0.25, 'rel': 0.0})
+    order = list(range(len(sps))); rng.shuffle(order)
+    obs.desc = {'texts': [sp['text'] for sp in sps], 'locals': [sp['locals'] for sp in sps], 'x': [sp['x'] for sp in sps], 'order': order, 'extra_builds': extra}
+    viol = 0
+    for j in order:
+        sat, band = judge_single(obs, fns[j], sps[j], tag='built %d function(s) later' % (len(sps) - 1 - j + (2 if extra else 0)))
+        if not sat or sps[j]['x'][sps[j]['i']] == sps[j]['f']: viol += 1
+        obs.event('interleaved_functions_judged')
+    names_shared = len(set(c for sp in sps for c in (sp['locals'] or {}))) < sum(len(sp['locals'] or {}) for sp in sps)
+    obs.nontrivial = viol >= 1 and names_shared
+    obs.notes = {'functions': len(sps), 'locals_names_shared': names_shared}
 
 
 def run_multi(rng, obs):
@@ -231,4 +297,4 @@ def run_case(cls, idx, rng, obs):
     import warnings
     warnings.simplefilter('ignore')
     np.seterr(all='ignore')
-    return {'single': run_single, 'multi': run_multi, 'bounds': run_bounds, 'named_collision': run_collision}[cls](rng, obs)
+    return {'single': run_single, 'interleaved': run_interleaved, 'multi': run_multi, 'bounds': run_bounds, 'named_collision': run_collision}[cls](rng, obs)
